@@ -130,6 +130,16 @@ def check(case, rec):
     want_desc = {0xC3: b"\x03", 0xC2: b"\x02", 0xC1: b"\x03", 0xC5: b"\x01"}
     if desc != want_desc or not comp.encrypt_by_session_key or comp.actual_len != len(want_blob):
         raise Violation("configuration component tags/flags: %r enc=%r actual_len=%r" % (desc, comp.encrypt_by_session_key, comp.actual_len))
+    # the component LIST handed to the constructor is the caller's: two files built from one list object stay independent of each other
+    shared = [sut.Bf3Component({0xC3: b"\x02"}, b"fw")]
+    fa, fb = sut.Bf3File({}, shared), sut.Bf3File({}, shared)
+    try:
+        fa.set_config(cfg, list(extra))
+    except Exception:
+        fa = None
+    if fa is not None and (len(shared) != 1 or len(fb.components) != 1 or len(fa.components) != 2):
+        raise Violation("two files built from ONE component list object: set_config on the first left the caller's list with %d entries and the second file with %d components (first file: %d)" % (
+            len(shared), len(fb.components), len(fa.components)))
     if f.components[0].blob != b"fw" or len(f.components) != 2:
         raise Violation("set_config disturbed other components")
 
